@@ -4,7 +4,7 @@ import UF.Model.Parse
   one step per byte over the variables `st`, `nLabel`, `prevChar`, `charOnly`, `xn`
   (`nLevel` is written but never read, so it is not modelled).
 -/
-namespace UF
+namespace UF.E
 open Bytes
 
 structure DNState where
@@ -68,4 +68,4 @@ def isDomainNameC (name : Bytes) : PE Bool :=
     | none => pure false
     | some s => pure !(s.st != 2 || s.nLabel == 1 || (!s.charOnly && s.xn < 8))
 
-end UF
+end UF.E
